@@ -35,7 +35,9 @@ logging.getLogger("monkeytype").addHandler(logging.NullHandler())
 logging.getLogger("monkeytype").propagate = False
 
 MODULES = ["m", "M", "m.sub", "m_x", "mXx"]
-QUALNAMES = ["my_func", "myXfunc", "MY_FUNC", "Foo.bar", "foo", "Foo", "a%b", "aXXb", "a_b", "ab"]
+QUALNAMES = ["my_func", "myXfunc", "MY_FUNC", "Foo.bar", "foo", "Foo", "a%b", "aXXb", "a_b", "ab",
+             # metacharacters of other pattern languages (GLOB character classes / wildcards, regex)
+             "Model[int].validate", "Modeli.validate", "a*b", "a?b", "a.b"]
 ARGS = [{}, {"a": int}, {"a": str}]
 RETS = [None, int, type(None)]
 _funcs = {}
@@ -66,7 +68,7 @@ def row_of(ts):
 
 trace_specs = st.tuples(st.sampled_from(MODULES), st.sampled_from(QUALNAMES), st.integers(0, 2), st.integers(0, 2), st.sampled_from([0, 0, 1]),
                         st.sampled_from([False] * 6 + [True])).map(list)
-PREFIXES = sorted({q[:i] for q in QUALNAMES for i in range(0, len(q) + 1)} | {"%", "_", "my_", "MY", "f", "F", "a%", "a_"})
+PREFIXES = sorted({q[:i] for q in QUALNAMES for i in range(0, len(q) + 1)} | {"%", "_", "my_", "MY", "f", "F", "a%", "a_", "*", "?", "[", "Model[", "a*", "a?", "a."})
 
 
 class Sim:
@@ -167,7 +169,9 @@ def make_machine(ctx, dirpath):
         @rule(si=st.integers(0, 2), batch=st.lists(trace_specs, max_size=6), dup=st.booleans())
         def add(self, si, batch, dup):
             if dup and batch:
-                batch = batch + [batch[0]]
+                # an exact duplicate and near-duplicates that differ in one column only (yield, return, arguments)
+                b0 = batch[0]
+                batch = batch + [b0, b0[:4] + [1 - b0[4]] + b0[5:], b0[:3] + [(b0[3] + 1) % 3] + b0[4:], b0[:2] + [(b0[2] + 1) % 3] + b0[3:]]
             self.sim.do(["add", si, batch])
 
         @rule(si=st.integers(0, 2), data=st.data(), n=st.sampled_from([0, 1, 2, 3, 5, 8, 2000]))
